@@ -189,13 +189,25 @@ def history_result(fc, A, answers, h, preload, K):
     """-> (case, ok, step, detail)"""
     objs = Objects(fc, preload, K)
     case = {'file': fc.label, 'preload': preload, 'K': K, 'history': [[A[i - 1]['r'], A[i - 1]['op'], A[i - 1]['a']] for i in h]}
+    sib = None
     try:
+        if getattr(fc, 'sibling', None):        # a reader on ANOTHER file of the same geometry, alive at the same time, is asked the same things first
+            from seismic_zfp.read import SgzReader
+            with env.quiet():
+                sib = SgzReader(fc.sibling, preload=preload, chunk_cache_size=K)
         for step, i in enumerate(h):
-            ok, detail = do_call(objs, fc, A[i - 1], answers[i - 1])
+            c = A[i - 1]
+            if sib is not None and c['op'] not in ('close', 'get_tracefield_values'):
+                with env.quiet():
+                    readcalls.invoke(sib, c['op'], c['a'])
+            ok, detail = do_call(objs, fc, c, answers[i - 1])
             if not ok:
                 return case, False, step, detail
     finally:
         objs.close_all()
+        if sib is not None:
+            with env.quiet():
+                sib.close()
     return case, True, len(h), ''
 
 
@@ -234,12 +246,20 @@ def crafted(run):
     from .. import writers
     d = env.subdir('c15w')
     out = []
-    p = os.path.join(d, 'ends.sgz')
-    writers.numpy_to_sgz(p, inputs.cube((5, 9, 12), run.seed + 71), 32, (4, 4, -1), ilines=1 + 2 * np.arange(5), xlines=1 + np.arange(9), samples=1.0 + np.arange(12))
-    out.append(session.FileCase(p, label='numpy(5, 9, 12) il 1..9 step 2, xl 1..9'))
-    p = os.path.join(d, 'many.sgz')
-    writers.numpy_to_sgz(p, inputs.cube((40, 30, 4), run.seed + 72), 32, (4, 4, -1), ilines=100 + np.arange(40), xlines=7 + 3 * np.arange(30), samples=4.0 * np.arange(4))
-    out.append(session.FileCase(p, label='numpy(40, 30, 4) 1200 traces'))
+
+    def pair(name, label, shape, rate, bs, seed, **kw):
+        """the file and a sibling: same geometry and layout, other samples (and other header values)"""
+        p, q = os.path.join(d, name + '.sgz'), os.path.join(d, name + '-sibling.sgz')
+        writers.numpy_to_sgz(p, inputs.cube(shape, seed), rate, bs, **kw)
+        writers.numpy_to_sgz(q, inputs.cube(shape, seed + 1000, 'noise'), rate, bs, **kw)
+        fc = session.FileCase(p, label=label)
+        fc.sibling = q
+        out.append(fc)
+    pair('ends', 'numpy(5, 9, 12) il 1..9 step 2, xl 1..9', (5, 9, 12), 32, (4, 4, -1), run.seed + 71,
+         ilines=1 + 2 * np.arange(5), xlines=1 + np.arange(9), samples=1.0 + np.arange(12))
+    pair('many', 'numpy(40, 30, 4) 1200 traces', (40, 30, 4), 32, (4, 4, -1), run.seed + 72,
+         ilines=100 + np.arange(40), xlines=7 + 3 * np.arange(30), samples=4.0 * np.arange(4))
+    pair('brick', 'numpy(13, 10, 40) b(4, 8, 32) with a sibling', (13, 10, 40), 32, (4, 8, 32), run.seed + 73)
     return out
 
 
